@@ -84,6 +84,10 @@ Fixpoint expressible (t : str) : bool :=
   end.
 
 
+(* the code points x with lo <= x < hi for which is_space holds, ascending (what the model says str.isspace() accepts) *)
+Definition spaces_in (lo hi : N) : list N :=
+  rev (snd (N.iter (hi - lo) (fun st => let '(x, acc) := st in (N.succ x, if is_space x then x :: acc else acc)) (lo, []))).
+
 (* ---- wire: (0 string) -> tokenize; (1 tokens probes) -> option tokens & membership ---- *)
 Definition run_C08 (s : sexp) : sexp :=
   match s with
@@ -100,6 +104,9 @@ Definition run_C08 (s : sexp) : sexp :=
          sList (fun p => L [sB (has_token p ts); sB (has_token p (option_tokens ts))]) ps]
     | _, _ => sBad end
   | L [A 3%Z; t] => match dStr t with Some t => L [A 0%Z; sB (expressible t)] | None => sBad end
-  | L [A 2%Z; _; _] => L [A 0%Z]       (* isspace table: compared in the harness against Base.Res.is_space's list *)
+  | L [A 2%Z; lo; hi] =>               (* isspace table: every code point of [lo, hi) that is_space accepts *)
+    match dN lo, dN hi with
+    | Some lo, Some hi => L [A 0%Z; sList sN (spaces_in lo hi)]
+    | _, _ => sBad end
   | _ => sBad
   end.
